@@ -37,7 +37,9 @@ def sha(obj) -> str:
 class Collector:
     """Per-shard accumulator (picklable through .dump())."""
 
-    def __init__(self, sample_cap: int = 4):
+    def __init__(self, sample_cap: int = 4, pid: str = ""):
+        self.pid = pid
+        self.known = [k for k in load_known() if k.get("property") == pid and k.get("status") == "known"] if pid else []
         self.evaluations = 0
         self.nontrivial: set = set()
         self.classes: Counter = Counter()
@@ -62,6 +64,10 @@ class Collector:
 
     def fail(self, bucket: str, detail: str, case: Any):
         """Record an oracle mismatch. `case` must be a JSON-able input sufficient for judge()."""
+        k = match_known(self.known, case, bucket, detail)
+        if k is not None:
+            self.excluded["known:%s" % k["id"]] += 1
+            return
         size = len(canon(case))
         cur = self.failures.get(bucket)
         if cur is None or size < cur["size"]:
@@ -81,25 +87,67 @@ class Collector:
         }
 
 
-def hyp_run(body: Callable[[Any], None], strategy, max_examples: int, seedv: int):
-    """Run a Hypothesis generation phase deterministically; body records failures itself."""
-    from hypothesis import HealthCheck, Phase, given, seed as hseed, settings
+def match_known(known, case, bucket, detail):
+    """The known finding (status=known) whose input-side predicate holds on this failing input, else None."""
+    if not known:
+        return None
+    from . import findings
+
+    for k in known:
+        pred = findings.PREDICATES.get(k.get("predicate", ""))
+        try:
+            if pred and pred(case, bucket, detail):
+                return k
+        except Exception:
+            continue
+    return None
+
+
+class _Enough(Exception):
+    pass
+
+
+def hyp_run(body: Callable[[Any], None], strategy, n_distinct: int, seedv: int, key=None, col: "Collector" = None):
+    """Run a Hypothesis generation phase deterministically until `n_distinct` distinct cases (by key, default the
+    whole case) have been passed to body; body records failures itself. Hypothesis' generate phase spends most
+    of its calls on span-duplicating mutations of earlier examples, which mostly reproduce the same case: those
+    are skipped (and counted as 'hypothesis-duplicate')."""
+    from hypothesis import HealthCheck, Phase, Verbosity, given, seed as hseed, settings
+
+    seen = set()
+    state = {"stop": False}
+    keyf = key or (lambda c: c)
 
     @hseed(seedv)
     @settings(
-        max_examples=max_examples,
+        max_examples=max(n_distinct * 12, 50),
         database=None,
         deadline=None,
         derandomize=False,
         phases=[Phase.generate],
         suppress_health_check=list(HealthCheck),
         report_multiple_bugs=False,
+        verbosity=Verbosity.quiet,
     )
     @given(strategy)
     def t(x):
+        if state["stop"]:
+            raise _Enough()
+        h = sha(keyf(x))
+        if h in seen:
+            if col is not None:
+                col.cls("hypothesis-duplicate")
+            return
+        seen.add(h)
         body(x)
+        if len(seen) >= n_distinct:
+            state["stop"] = True
+            raise _Enough()
 
-    t()
+    try:
+        t()
+    except _Enough:
+        pass
 
 
 def hyp_state_machine(machine_cls, max_examples: int, steps: int, seedv: int):
@@ -126,7 +174,13 @@ def _shard_entry(args):
     try:
         env.import_pyteal()
         mod = importlib.import_module(modname)
-        col = Collector()
+        import gc
+
+        # imported libraries hold ~10^6 long-lived objects; keep the cyclic GC from re-traversing them
+        gc.collect()
+        gc.freeze()
+        gc.set_threshold(50000, 20, 100)
+        col = Collector(pid=mod.ID)
         t0 = time.time()
         mod.shard(tier, env.derive(seedv, mod.ID, k), k, n, col)
         d = col.dump()
@@ -144,7 +198,7 @@ def load_known() -> List[dict]:
         return json.load(f)
 
 
-def shrink(mod, bucket: str, case, budget_s: float):
+def shrink(mod, bucket: str, case, budget_s: float, known=None):
     """Greedy structural minimisation with the property's judge()."""
     if not hasattr(mod, "shrinks"):
         return case
@@ -164,7 +218,7 @@ def shrink(mod, bucket: str, case, budget_s: float):
                 res = mod.judge(cand)
             except Exception:
                 continue
-            if any(b == bucket for b, _ in res):
+            if any(b == bucket and match_known(known, cand, b, d) is None for b, d in res):
                 cur, cur_size = cand, sz
                 improved = True
                 break
@@ -217,7 +271,8 @@ def main(argv=None):
     if procs == 1:
         outs = [_shard_entry(j) for j in jobs]
     else:
-        ctx = multiprocessing.get_context("fork")
+        # spawn, not fork: copy-on-write faults on the parent's heap are very expensive with 16 children here
+        ctx = multiprocessing.get_context(os.environ.get("VERIF_MP", "spawn"))
         with ctx.Pool(procs, maxtasksperchild=1) as pool:
             outs = pool.map(_shard_entry, jobs, chunksize=1)
 
@@ -260,7 +315,6 @@ def main(argv=None):
 
     # dedicated finding sub-cases + known matching
     known = [k for k in load_known() if k.get("property") == pid]
-    findings_mod = importlib.import_module("vf.findings")
     known_lines: List[str] = []
     violations: List[Tuple[str, dict, str]] = []
 
@@ -290,38 +344,15 @@ def main(argv=None):
                 failures.setdefault("regress:%s:%s" % (k["id"], b), {"bucket": "regress:%s:%s" % (k["id"], b), "detail": d, "case": k["example"], "size": 0, "count": 1})
 
     shrink_budget = getattr(mod, "SHRINK_S", {}).get(tier, 20 if tier == "quick" else 180)
+    kn = [k for k in known if k.get("status") == "known"]
     for b in sorted(failures):
         f = failures[b]
         case = f["case"]
-        matched = None
-        for k in known:
-            if k.get("status") != "known":
-                continue
-            pred = findings_mod.PREDICATES.get(k.get("predicate", ""))
-            try:
-                if pred and pred(case, b, f["detail"]):
-                    matched = k
-                    break
-            except Exception:
-                continue
-        if matched:
-            excluded["known:%s" % matched["id"]] += f["count"]
+        mk = match_known(kn, case, b, f["detail"])
+        if mk is not None:
+            excluded["known:%s" % mk["id"]] += f["count"]
             continue
-        small = shrink(mod, b, case, shrink_budget) if not b.startswith("regress:") else case
-        # a shrunk case might have moved into a known-finding region; re-check
-        matched = None
-        for k in known:
-            if k.get("status") != "known":
-                continue
-            pred = findings_mod.PREDICATES.get(k.get("predicate", ""))
-            try:
-                if pred and pred(small, b, f["detail"]):
-                    matched = k
-                    break
-            except Exception:
-                continue
-        if matched:
-            small = case  # keep the original, which is not covered by the finding
+        small = shrink(mod, b, case, shrink_budget, kn) if not b.startswith("regress:") else case
         try:
             det = [d for bb, d in mod.judge(small) if bb == b]
             detail = det[0] if det else f["detail"]
